@@ -58,7 +58,7 @@ def neutralise_hard(doc: str, o: dict) -> str:
     out = []
     for line in neutralise(doc, o).split("\n"):
         m = re.match(r"^([ >]*(?:(?:[-*+]|\d+[.)])[ ]+(?:\[[ xX]\][ ]+)?)*(?:#{1,6}[ ]+)?)(.*)$", line)
-        out.append(m.group(1) + c01.HAZ_ANY.sub(lambda mm: "w" * max(1, len(mm.group(0))), m.group(2)))
+        out.append(m.group(1) + c01._haz_sub(m.group(2), False))
     d = "\n".join(out)
     d = re.sub(r"\.\.\.+", "w", d)
     return re.sub(r"(?<!\S)\d+\.(?!\S)", "w", d)
